@@ -312,3 +312,32 @@ Proof.
   - rewrite app_length, repeat_length. lia.
   - apply Forall_app. split; [|exact Hb]. clear. induction (w - length ds)%nat; cbn; constructor; [lia|assumption].
 Qed.
+
+(* ------------------------------------------------------------------ the header must carry the entry's generation *)
+
+(* if the object at an entry's offset has header generation g and the strict check of that entry passes,
+   the entry's generation is g *)
+Lemma entry_locates_gen e f x g : locates_g e f x g -> entry_locates f x = true -> e_b x = g.
+Proof.
+  intros [Hf (rest & Hd)] Hl. destruct (entry_locates_sound f x Hl Hf) as (r & Hd' & _).
+  rewrite Hd in Hd'. unfold obj_header in Hd'. repeat rewrite <- app_assoc in Hd'.
+  apply app_inv_head in Hd'. apply app_inv_head in Hd'.
+  assert (T1 : take_digits (dec g ++ s_obj ++ eolb e ++ rest) = (dec g, s_obj ++ eolb e ++ rest))
+    by (apply take_digits_app; [apply dec_digits|reflexivity]).
+  assert (T2 : take_digits (dec (e_b x) ++ s_obj ++ r) = (dec (e_b x), s_obj ++ r))
+    by (apply take_digits_app; [apply dec_digits|reflexivity]).
+  rewrite Hd' in T1. rewrite T1 in T2. injection T2 as T2 _.
+  rewrite <- (dec_value g), <- (dec_value (e_b x)), T2. reflexivity.
+Qed.
+
+(* for EVERY input: an object whose xref entry passes the strict check was written with a header that
+   carries the entry's generation (so a writer that prints any other generation in the header -- e.g. always
+   0 when rewriting objects of an increment -- is rejected as soon as an entry has another generation) *)
+Theorem header_carries_entry_generation i :
+  let '(_, _, tbl) := body_of i in
+  Forall2 (fun o x => entry_locates (layout i) x = true -> o_xgen o = o_gen o) (i_objs i) tbl.
+Proof.
+  pose proof (offsets_exact i) as H. destruct (body_of i) as [[bytes off] tbl]. destruct H as (_ & H & _).
+  induction H as [|o x os t (Hn & Hb & Hl) _ IH]; constructor; [|exact IH].
+  intros Hc. rewrite <- Hb. eapply entry_locates_gen; eassumption.
+Qed.
